@@ -19,9 +19,13 @@ type c11gen struct {
 	env   *zygo.Zlisp
 	types []string
 	nodes int
+	made  []zygo.Sexp // containers built so far: reused now and then, so one object sits at several positions
 }
 
 func (g *c11gen) str() string {
+	if g.r.N(25) == 0 { // strings that look like other kinds of data must stay strings
+		return []string{"2015-03-04T01:02:03Z", "2015-03-04T01:02:03.000000001+01:00", "12", "-1.5e3", "true", "nil", "null", "[1 2]", "{\"a\":1}", "0x1F", "Atype", "zKeyOrder", "50% off %s %d", "NaN"}[g.r.N(14)]
+	}
 	n := g.r.N(6)
 	var b strings.Builder
 	for i := 0; i < n; i++ {
@@ -60,7 +64,20 @@ func (g *c11gen) scalar() zygo.Sexp {
 var c11Keys = []string{"a", "b", "name", "Zz", "k2", "id", "x_y", "zKey", "Atyp", "last"}
 
 func (g *c11gen) value(d int) zygo.Sexp {
+	v := g.value0(d)
+	switch v.(type) {
+	case *zygo.SexpArray, *zygo.SexpHash:
+		g.made = append(g.made, v)
+	}
+	return v
+}
+
+func (g *c11gen) value0(d int) zygo.Sexp {
 	g.nodes++
+	if len(g.made) > 0 && g.r.N(8) == 0 {
+		// the very same array / hash / record object again (a DAG, never a cycle: it is complete already)
+		return g.made[g.r.N(len(g.made))]
+	}
 	if d <= 0 || g.nodes > 40 || g.r.N(3) == 0 {
 		return g.scalar()
 	}
